@@ -9,6 +9,23 @@ use ggrs::InputStatus;
 use serde_json::Map;
 use std::time::Instant;
 
+/// A spectator of the surviving host. Half of them lag (slow ticks or a pause around the drop) and catch up several frames
+/// per call, so that the dropped player's last frame falls INSIDE a multi-frame catch-up step (round-6 seed C07).
+fn spec_cfg(rr: &mut Rng, drop_at_ms: u64) -> SpecCfg {
+    let mut sp = SpecCfg::new(0);
+    sp.catchup = rr.pick(&[1usize, 2, 3, 5, 8]);
+    sp.max_behind = rr.pick(&[1usize, 2, 5, 10]);
+    match rr.below(4) {
+        0 => sp.period_factor = rr.pick(&[1.5, 2.0, 3.0]),
+        1 => {
+            let a = drop_at_ms.saturating_sub(rr.range(100, 700));
+            sp.pauses.push((a, a + rr.range(150, 800)));
+        }
+        _ => {}
+    }
+    sp
+}
+
 pub fn cases(ctx: &Ctx) -> Vec<WCase> {
     let mut out = vec![];
     let mut r = Rng::new(ctx.seed ^ 0xC07);
@@ -16,8 +33,7 @@ pub fn cases(ctx: &Ctx) -> Vec<WCase> {
         let mut rr = r.fork(i as u64);
         let mut s = gen_death2(&mut rr, 500);
         if rr.chance(0.4) {
-            let mut sp = SpecCfg::new(0);
-            sp.catchup = rr.pick(&[1usize, 2, 5]);
+            let sp = spec_cfg(&mut rr, s.kill.as_ref().unwrap().at_ms);
             s.specs.push(sp);
             // half of the spectated ones: straggling copies of host->spectator packets sent before the drop arrive after it
             if rr.chance(0.5) {
@@ -42,7 +58,8 @@ pub fn cases(ctx: &Ctx) -> Vec<WCase> {
         // the repeated call must be rejected
         s.actions.push(Action { node: 0, when: Trigger::AtMs(at + rr.range(1, 400)), act: Act::Disconnect { h } });
         if rr.chance(0.4) {
-            s.specs.push(SpecCfg::new(0));
+            let sp = spec_cfg(&mut rr, at);
+            s.specs.push(sp);
         }
         s.settle_ms = 1000;
         // extra bare polls between the advancing ticks: the call may then follow a poll that has just delivered inputs
@@ -63,7 +80,8 @@ pub fn cases(ctx: &Ctx) -> Vec<WCase> {
         c.poll_only.push((at.saturating_sub(rr.range(0, 150)), at + s.timeout_ms + rr.range(60, 600)));
         s.nodes = vec![c, NodeCfg::default()];
         if rr.chance(0.4) {
-            s.specs.push(SpecCfg::new(0));
+            let sp = spec_cfg(&mut rr, at);
+            s.specs.push(sp);
         }
         s.settle_ms = 1500;
         out.push(wcase(format!("paused-{i}"), s));
@@ -88,7 +106,8 @@ pub fn cases(ctx: &Ctx) -> Vec<WCase> {
             s.actions.push(Action { node: 0, when: Trigger::AtMs(at + rr.range(1, 400)), act: Act::Disconnect { h } });
         }
         if rr.chance(0.5) {
-            s.specs.push(SpecCfg::new(0));
+            let sp = spec_cfg(&mut rr, 2000);
+            s.specs.push(sp);
         }
         s.settle_ms = 1500;
         out.push(wcase(format!("{}-{i}", if api { "api-noinput" } else { "kill-noinput" }), s));
@@ -291,7 +310,7 @@ pub fn check(ctx: &Ctx) -> i32 {
     let res = par_run(ctx, &cs, &|c: &WCase| c.id.clone(), &run_case);
     let meta = Meta {
         level: "fault_enumeration",
-        rule: "two-peer sessions (1+1, 2+2, 2+1, 1+2 players), rollback and lockstep (windows 0,1,2,3,8,12), delays 0..=3, sparse on/off, both predictors, notify delay {100,300,500,1000} ms, timeout = notify + {0,200,1500} ms, lossy links; the remote is killed at a random moment 1.5-3 s after start (after all sessions are Running) and each of its in-flight packets is dropped with probability {0,0.5,1}; with and without a spectator; plus explicit disconnect_player calls (with a repeated call) at random moments, the caller polling 1/2/4/8 times per frame; plus a paused-game family in which the survivor only polls (no advance_frame) from up to 150 ms before the death until after the timeout and then plays on; plus a family in which every Input packet of the remote is lost from the start, so that it is dropped (by timeout or by the application) before its first input ever arrived. With T_rx = time the survivor's socket last handed over a packet of the dead peer: NetworkInterrupted must fall in [T_rx+notify, +slack] with field timeout-notify, Disconnected in [T_rx+timeout, +slack] exactly once and nothing after it for that address (slack = one tick period + tick jitter + 2 ms); the survivor then keeps advancing (at least a third of its ticks over the next second: sparse saving with window 1 legitimately advances every other tick); in its final timeline the dropped players have the real inputs up to the last received frame and (default, Disconnected) afterwards, including frames simulated earlier with predictions; spectators agree with the host's final timeline. Non-trivial: a player is disconnected at the end and a corrective rollback was needed, or the survivor stalled, or lockstep. Distinct: configuration + trace hash.".into(),
+        rule: "(spectators of the survivor: catch-up 1..8 frames per call, max_frames_behind 1..10, half of them lagging - slow ticks or a pause around the drop - so that the cut-off falls inside a multi-frame catch-up step) two-peer sessions (1+1, 2+2, 2+1, 1+2 players), rollback and lockstep (windows 0,1,2,3,8,12), delays 0..=3, sparse on/off, both predictors, notify delay {100,300,500,1000} ms, timeout = notify + {0,200,1500} ms, lossy links; the remote is killed at a random moment 1.5-3 s after start (after all sessions are Running) and each of its in-flight packets is dropped with probability {0,0.5,1}; with and without a spectator; plus explicit disconnect_player calls (with a repeated call) at random moments, the caller polling 1/2/4/8 times per frame; plus a paused-game family in which the survivor only polls (no advance_frame) from up to 150 ms before the death until after the timeout and then plays on; plus a family in which every Input packet of the remote is lost from the start, so that it is dropped (by timeout or by the application) before its first input ever arrived. With T_rx = time the survivor's socket last handed over a packet of the dead peer: NetworkInterrupted must fall in [T_rx+notify, +slack] with field timeout-notify, Disconnected in [T_rx+timeout, +slack] exactly once and nothing after it for that address (slack = one tick period + tick jitter + 2 ms); the survivor then keeps advancing (at least a third of its ticks over the next second: sparse saving with window 1 legitimately advances every other tick); in its final timeline the dropped players have the real inputs up to the last received frame and (default, Disconnected) afterwards, including frames simulated earlier with predictions; spectators agree with the host's final timeline. Non-trivial: a player is disconnected at the end and a corrective rollback was needed, or the survivor stalled, or lockstep. Distinct: configuration + trace hash.".into(),
         assumptions: std_assumptions(),
         floor_nontrivial: if ctx.quick() { 300 } else { 8000 },
         exhaustive: None,
